@@ -31,7 +31,7 @@ var props = map[string]Prop{
 	"C09": {
 		Stages: []Stage{
 			{Name: "exhaustive", Test: "TestC09Exhaustive", Shards: [2]int{4, 16}, Timeout: [2]time.Duration{5 * min, 20 * min}},
-			{Name: "random", Test: "TestC09Random", Shards: [2]int{2, 16}, Checks: [2]int{15000, 150000}, SeedOffset: 1, Timeout: [2]time.Duration{5 * min, 20 * min}},
+			{Name: "random", Test: "TestC09Random", Shards: [2]int{2, 16}, Checks: [2]int{15000, 600000}, SeedOffset: 1, Timeout: [2]time.Duration{5 * min, 20 * min}},
 		},
 		Rule: "exhaustive: every string of length <= 4 (quick) / <= 5 (thorough) over a 27-symbol representative alphabet and over a complementary 25-symbol alphabet (E, X, f, remaining operators and brackets, TAB, CR, space, runes of 2-4 bytes, a truncated rune, a stray 0xA0 byte), each visited once; random: rapid-generated strings up to 64 bytes built from lexeme fragments, arbitrary bytes and runes. Oracle: partition laws, differential against an independent reference tokenizer (kinds, spans, values, numbers as exact rationals), re-scan idempotence, numeric accessors. Non-trivial = the string contains a multi-character lexeme or drives the scanner through a look-ahead state (after 0, 0x, '.', exponent, backslash, '/', '=', '!', '<', '>', inside quotes) with at least one following character; distinct = distinct strings (exhaustive part distinct by construction, random part by hash).",
 		Assumptions: []string{
@@ -43,7 +43,7 @@ var props = map[string]Prop{
 	"C15": {
 		Stages: []Stage{
 			{Name: "exhaustive", Test: "TestC15Exhaustive", Shards: [2]int{4, 16}, Timeout: [2]time.Duration{5 * min, 30 * min}},
-			{Name: "random", Test: "TestC15Random", Shards: [2]int{2, 16}, Checks: [2]int{8000, 60000}, SeedOffset: 1, Timeout: [2]time.Duration{5 * min, 20 * min}},
+			{Name: "random", Test: "TestC15Random", Shards: [2]int{2, 16}, Checks: [2]int{8000, 300000}, SeedOffset: 1, Timeout: [2]time.Duration{5 * min, 20 * min}},
 		},
 		Rule: "exhaustive: every string of length <= 4 (quick) / <= 5 (thorough) over the 27-symbol alphabet and over the complementary 25-symbol alphabet (the first contains ';', all three quotes, '/', '!', newline); random: rapid-generated concatenations of statement fragments, semicolons, unterminated tokens and look-ahead lexemes. Oracle: join(pieces, ';') == source; #pieces == #semicolon tokens + 1; each piece is the text between consecutive semicolon tokens; Scan(piece) has no semicolon token and equals the context tokens shifted by the piece offset; Parse(source) succeeds iff every non-empty piece parses, and then statement k equals Parse(piece k) up to the span shift. Non-trivial = at least one semicolon token and (a semicolon byte that is not a token, or a semicolon directly after a look-ahead character); distinct = distinct strings.",
 		Assumptions: []string{"reflective structural comparison over the exported AST fields defines 'the same statement'"},
@@ -51,8 +51,8 @@ var props = map[string]Prop{
 	"C07": {
 		Stages: []Stage{
 			{Name: "exhaustive", Test: "TestC07Exhaustive", Shards: [2]int{4, 16}, Timeout: [2]time.Duration{5 * min, 30 * min}},
-			{Name: "exprs", Test: "TestC07Exprs", Shards: [2]int{2, 16}, Checks: [2]int{3000, 30000}, SeedOffset: 1, Timeout: [2]time.Duration{5 * min, 30 * min}},
-			{Name: "programs", Test: "TestC07Programs", Shards: [2]int{4, 16}, Checks: [2]int{2500, 30000}, SeedOffset: 2, Timeout: [2]time.Duration{5 * min, 30 * min}},
+			{Name: "exprs", Test: "TestC07Exprs", Shards: [2]int{2, 16}, Checks: [2]int{3000, 80000}, SeedOffset: 1, Timeout: [2]time.Duration{5 * min, 30 * min}},
+			{Name: "programs", Test: "TestC07Programs", Shards: [2]int{4, 16}, Checks: [2]int{2500, 80000}, SeedOffset: 2, Timeout: [2]time.Duration{5 * min, 30 * min}},
 			{Name: "large", Test: "TestC07Large", Shards: [2]int{2, 8}, Checks: [2]int{60, 600}, SeedOffset: 3, Timeout: [2]time.Duration{5 * min, 30 * min}},
 		},
 		Rule: "exhaustive: every token sequence operand (op operand){1..3} (thorough: ..4) over the 16 binary operators with every sign pattern, expected tree from a reference precedence parser written from the C07 statement; exprs: rapid-generated expression trees to depth 7/10 (calls, one index, nested and redundant parentheses, in-lists), two layouts each; programs: rapid-generated programs (all eleven operators with every optional part, lets, empty statements, nested joins, hostile names/strings), two layouts each, keyword synonyms drawn at random; large: flat programs of 50-700 operators, terms, statements or list elements (the grammar has no size limit). Oracle: parser.Parse succeeds and the tree (read through exported fields, positions ignored, sort-term booleans taken from the parser) equals the expected canonical tree; parser.Scan equals the printed token list. Non-trivial = >= 2 binary operators of different kinds, or a sign next to index/call, or an operator with an optional part / column list, or a layout with newline, tab or comment; distinct = canonical tree x layout class.",
@@ -100,7 +100,7 @@ var props = map[string]Prop{
 	},
 	"C11": {
 		Stages: []Stage{
-			{Name: "programs", Test: "TestC11Programs", Shards: [2]int{4, 16}, Checks: [2]int{2500, 40000}, Timeout: [2]time.Duration{5 * min, 40 * min}},
+			{Name: "programs", Test: "TestC11Programs", Shards: [2]int{4, 16}, Checks: [2]int{2500, 120000}, Timeout: [2]time.Duration{5 * min, 40 * min}},
 			{Name: "soups", Test: "TestC11Soups", Shards: [2]int{4, 16}, SeedOffset: 1, Timeout: [2]time.Duration{5 * min, 40 * min}},
 			{Name: "large", Test: "TestC11Large", Shards: [2]int{2, 8}, Checks: [2]int{40, 300}, SeedOffset: 2, Timeout: [2]time.Duration{5 * min, 40 * min}},
 		},
@@ -110,7 +110,7 @@ var props = map[string]Prop{
 	"C02": {
 		Stages: []Stage{
 			{Name: "sequences", Test: "TestC02Sequences", Shards: [2]int{4, 16}, Checks: [2]int{4, 8}, Timeout: [2]time.Duration{10 * min, 60 * min}},
-			{Name: "random", Test: "TestC02Random", Shards: [2]int{4, 16}, Checks: [2]int{5000, 150000}, SeedOffset: 1, Timeout: [2]time.Duration{10 * min, 60 * min}},
+			{Name: "random", Test: "TestC02Random", Shards: [2]int{4, 16}, Checks: [2]int{5000, 300000}, SeedOffset: 1, Timeout: [2]time.Duration{10 * min, 60 * min}},
 		},
 		Rule: "sequences: every sequence of the ten non-join operator kinds of length <= 3 (thorough 4), each instantiated with 4 (thorough 8) rapid draws of well-typed arguments (schema threaded through the pipeline; project renames onto existing column names one time in three; later operators use the new names) and of a small database (0-6 rows, 4-value domains, NULLs, duplicate rows); random: sequences up to length 8 with repetition. Oracle: the emitted SQL, parsed by the independent SQL front end and evaluated with list semantics under both name-resolution disciplines (output alias first / source column first; readings that are not valid SQL are dropped), must return the columns (names and order) and rows of the reference interpreter that applies the operators left to right; rows are compared as sequences when a sort determines the final order (ties: accepted only if equal as multisets and ordered consistently with that sort), else as multisets. Non-trivial = a take/top adjacent to sort/where/project/summarize/extend/take/top, or a sort after a name-changing operator, or two sorts or two takes, or an operator after render/as, on a non-empty table with a tie or a NULL; distinct = operator kinds x argument shape.",
 		Assumptions: []string{
@@ -136,7 +136,7 @@ var props = map[string]Prop{
 			{Name: "random", Test: "TestC01Random", Shards: [2]int{4, 16}, Checks: [2]int{1500, 40000}, SeedOffset: 1, Timeout: [2]time.Duration{10 * min, 60 * min}},
 			{Name: "positions", Test: "TestC01Positions", Shards: [2]int{8, 16}, Timeout: [2]time.Duration{10 * min, 30 * min}},
 		},
-		Rule: "exhaustive: all expression trees with <= 3 operator nodes over 27 constructors (thorough: also all trees with 4 operator nodes over 12 representative constructors) (15 binary operators, in, index, both signs, seven built-ins, one pass-through function) in the where position, once with the parentheses the grammar needs and once with every operand parenthesised; positions: all trees with <= 2 operator nodes in eight positions (project, extend named/unnamed, summarize key, sort, top key, where, let) with identifier, string, number and mixed leaves; random: rapid-generated trees to depth 5 (thorough 8) with every literal spelling, quoted and qualified names, calls of all built-ins and pass-through names, explicit required and redundant parentheses, placed in twelve positions (where, project, extend named/unnamed, summarize aggregate and key, sort, take, top count and key, join on, let), one in three re-checked inside two more redundant parentheses. Oracle: Compile (under a CPU watchdog) must return; the emitted SQL must parse; the clause holding the translation is read with ClickHouse's operator precedence and evaluated on 25+ row valuations (all-NULL, single-NULL, mixed ints/strings) and must equal the value of the generator's tree under PQL semantics (==/!= never NULL, =~/!~ on lower(), built-ins by their documented meaning, any other function an injective function of its name and argument values). Non-trivial = >= 2 operator nodes or an explicit parenthesis; distinct = position x canonical tree.",
+		Rule: "exhaustive: all expression trees with <= 3 operator nodes over 27 constructors (thorough: also all trees with 4 operator nodes over 12 representative constructors) (15 binary operators, in, index, both signs, seven built-ins, one pass-through function) in the where position, once with the parentheses the grammar needs and once with every operand parenthesised; positions: all trees with <= 2 operator nodes in twelve positions (project, extend named/unnamed, summarize key, sort, top key, where, let, four let-use sites) with identifier, string, number and mixed leaves (eight leaf patterns); random: rapid-generated trees to depth 5 (thorough 8) with every literal spelling, quoted and qualified names, calls of all built-ins and pass-through names, explicit required and redundant parentheses, placed in sixteen positions (where, project, extend named/unnamed, summarize aggregate and key, sort, take, top count and key, join on, let, and four let-use sites: the bound name as an operand, renamed by a second let, beside a quoted column of the same name), one in three re-checked inside two more redundant parentheses. Oracle: Compile (under a CPU watchdog) must return; the emitted SQL must parse; the clause holding the translation is read with ClickHouse's operator precedence and evaluated on 25+ row valuations (all-NULL, single-NULL, mixed ints/strings) and must equal the value of the generator's tree under PQL semantics (==/!= never NULL, =~/!~ on lower(), built-ins by their documented meaning, any other function an injective function of its name and argument values). Non-trivial = >= 2 operator nodes or an explicit parenthesis; distinct = position x canonical tree.",
 		Assumptions: []string{
 			"SQL is read with ClickHouse's precedence table (OR < AND < NOT < IS NULL < comparison/IN < || < + - < * / % < unary sign < [ ])",
 			"values the property is silent about are don't-care and skipped: =~/!~ with a NULL operand, strcat with a NULL argument",
@@ -183,7 +183,7 @@ var props = map[string]Prop{
 	},
 	"C06": {
 		Stages: []Stage{
-			{Name: "bindings", Test: "TestC06Bindings", Shards: [2]int{6, 16}, Checks: [2]int{2500, 50000}, Timeout: [2]time.Duration{10 * min, 90 * min}},
+			{Name: "bindings", Test: "TestC06Bindings", Shards: [2]int{6, 16}, Checks: [2]int{2500, 150000}, Timeout: [2]time.Duration{10 * min, 90 * min}},
 		},
 		Rule: "rapid-generated configurations: 0-3 parameters (names colliding with columns k/a1, with the constant true, with later let names; typed placeholder snippets; generated values) x 0-5 let statements (literal, signed, parenthesised-signed, compound, reference and compound-over-reference values; redefinition; shadowing of parameters; lets after the query) x a well-typed pipeline of 1-5 operators (joins included) in which one leaf in two is a binding of the right type, in every expression position (where, project, extend, summarize aggregate and key, sort, take/top counts, join conditions) and under every operator the typed grammar has (signs, all precedence levels, in-lists, iff); colliding non-uses: columns, aliases and `as` names spelled like a binding (then referenced in backticks), qualified $left./$right. names. Oracle: (1) the emitted SQL evaluated with placeholders bound to the generated values equals the reference interpreter with lexical scoping (a let value is computed once, in the scope of the lets and parameters before it; later lets shadow); (2) adding an unused let, an unused parameter and lets after the query leaves the SQL byte-identical; (3) a parameter's snippet occurs verbatim in the SQL iff the parameter reaches the query through substituted uses (directly or through a chain of lets). Non-trivial = at least one binding used in the query and at least one of: shadowing, redefinition, reference chain, signed or compound value, use in a join condition or row count, an alias or `as` name spelled like a binding; distinct = program shape.",
 		Assumptions: []string{
@@ -204,7 +204,7 @@ var props = map[string]Prop{
 	"C16": {
 		NeedCLI: true,
 		Stages: []Stage{
-			{Name: "scripts", Test: "TestC16Scripts", Shards: [2]int{8, 16}, Checks: [2]int{150, 4000}, Timeout: [2]time.Duration{10 * min, 90 * min}},
+			{Name: "scripts", Test: "TestC16Scripts", Shards: [2]int{8, 16}, Checks: [2]int{150, 10000}, Timeout: [2]time.Duration{10 * min, 90 * min}},
 		},
 		Rule: "rapid-generated scripts of 0-8 statements (valid queries that use or do not use earlier lets, valid lets incl. chains and redefinitions, failing lets (unbound name, syntax, quoted identifier, arity), invalid queries (parse and compile errors), empty statements) x line layouts (statements on one line or across lines with newlines, tabs and comments between tokens, blank lines and comments with semicolons between statements, final statement with or without `;` and final newline, CRLF line ends, one class with a 66-70 KB line, alone or inside a multi-line statement, one with 3-53 KB lines, comments between a statement and its semicolon, repeated let texts, strings and quoted names holding //, ; and trailing backslashes) x transport (stdin, one file, 2-3 files cut at arbitrary byte positions, `-` among files) x sink (stdout, -o file); each script is also run with the final `;` toggled. Oracle: the built cmd/pql binary is run as a subprocess; expected standard output is the fold of the statement list with pql.Compile (a let is accepted iff it compiles with the accepted lets before it; a query contributes the library's SQL for accepted-lets + query followed by a blank line); stdout (or the -o file) must be byte-equal; exit status is non-zero iff some statement failed, stderr non-empty iff some statement failed; for the long-line class: complete correct processing, or non-zero exit with stdout a prefix of the expected output. Non-trivial = a query that uses an earlier let, or a failing statement followed by a succeeding one; distinct = statement-kind sequence x transport x sink x line-end style.",
 		Assumptions: []string{
